@@ -92,6 +92,15 @@ def gen_case(rng, atoms, nconds, nq, shapes, tries=400, min_layers=0):
             break
     else:
         return None
+    # a quarter of the smaller bases state one conditional twice (same formulas, its own key): the base is a multiset,
+    # a duplicate stays in its layer and counts separately wherever falsified conditionals are counted or summed
+    if len(base) <= 3:
+        import zlib
+
+        h = zlib.crc32(repr(bv).encode())
+        if h % 4 == 0:
+            d = base[(h >> 4) % len(base)]
+            base.insert((h >> 8) % (len(base) + 1), {"vec": list(d["vec"]), "B": d["B"], "A": d["A"]})
     qs, seen = [], set()
     cands = [gen_cond(sig, rng) for _ in range(nq * 2)]
     for c in base:  # direct-inference style and flipped queries
